@@ -316,6 +316,14 @@ func (p *ServerProcessor) flushResponse(parser *Parser, res *Response) {
 	}
 }
 
+// noWriteDeadline is a connection whose write deadline cannot be set.
+type noWriteDeadline struct{ net.Conn }
+
+// SetWriteDeadline does nothing.
+//
+//go:norace
+func (noWriteDeadline) SetWriteDeadline(time.Time) error { return nil }
+
 // closeAfterFlush closes conn after the response bytes that are still queued in
 // a non-blocking connection have been written; other connections write
 // synchronously and are closed at once.
@@ -331,8 +339,15 @@ func closeAfterFlush(conn net.Conn, engine *Engine) {
 		// may still be queued there. Announce the end of the stream and let the
 		// connection below close once everything has been written.
 		if _, ok = tc.Conn().(interface{ CloseAfterFlush() error }); ok {
+			// tls.Conn puts write deadlines around close_notify, the last of them
+			// "now" to fail later writes. On an nbio.Conn a write deadline that
+			// expires closes the connection, dropping what is queued: keep them
+			// away from it.
+			below := tc.Conn()
+			tc.ResetConn(noWriteDeadline{below}, true)
 			_ = tc.CloseWrite()
-			c = tc.Conn()
+			tc.ResetConn(below, true)
+			c = below
 		}
 	}
 	if cf, ok := c.(interface{ CloseAfterFlush() error }); ok {
